@@ -63,7 +63,7 @@ package compress
 //@ func (srv *compressSrv) BrotliDecode(data []byte) (out []byte, err error)
 //@   requires [recv] srv != nil
 //@   nopanic
-//@   ensures [codec] err == nil ==> contents(out) == brDec(contents(data))
+//@   ensures [codec] err == nil && len(data) != 0 ==> contents(out) == brDec(contents(data))
 
 //@ func NewService() (srv *compressSrv)
 //@   nopanic
@@ -123,6 +123,61 @@ package compress
 //@ func (srv *compressSrv) Decompress(encoding string, data []byte) (out []byte, err error)
 //@   requires [recv] srv != nil
 //@   nopanic
-//@   ensures [dispatch] err == nil ==> contents(out) == decodeOf(encoding, contents(data))
+//@   ensures [dispatch] err == nil && (encoding != "br" || len(data) != 0) ==> contents(out) == decodeOf(encoding, contents(data))
 //@   ensures [unknown]  !knownEncoding(encoding) ==> err != nil
 //@   ensures [identity] encoding == "" ==> err == nil && out == data
+
+// ---- encoders and decoders over the libraries (gzip.go, brotli.go, lz4.go, snappy.go, zstd.go) --
+
+// the buffer returned holds one complete gzip stream: the writer was closed before returning
+//@ func gzipFn(buf []byte, level int) (buffer *bytes.Buffer, err error)
+//@   nopanic
+//@   modifies $enc
+//@   ensures [count]    $enc == old($enc) + 1
+//@   ensures [stream]   err == nil ==> buffer != nil && buffer.open == 0 && buffer.rest == gzipEnc(contents(buf), gzipLevel(level))
+//@   ensures [complete] err == nil ==> fresh(buffer)
+
+//@ func doGzip(buf []byte, level int) (out []byte, err error)
+//@   nopanic
+//@   modifies $enc
+//@   ensures [count] $enc == old($enc) + 1
+//@   ensures [codec] err == nil ==> contents(out) == gzipEnc(contents(buf), gzipLevel(level))
+
+//@ func brotliEncode(buf []byte, level int) (buffer *bytes.Buffer, err error)
+//@   nopanic
+//@   modifies $enc
+//@   ensures [count]    $enc == old($enc) + 1
+//@   ensures [stream]   err == nil ==> buffer != nil && buffer.open == 0 && buffer.rest == brEnc(contents(buf), brLevel(level))
+//@   ensures [complete] err == nil ==> fresh(buffer)
+
+//@ func doBrotli(buf []byte, level int) (out []byte, err error)
+//@   nopanic
+//@   modifies $enc
+//@   ensures [count] $enc == old($enc) + 1
+//@   ensures [codec] err == nil ==> contents(out) == brEnc(contents(buf), brLevel(level))
+
+//@ func doGunzip(buf []byte) (out []byte, err error)
+//@   nopanic
+//@   ensures [codec] err == nil ==> contents(out) == gzipDec(contents(buf))
+
+//@ func doBrotliDecode(buf []byte) (out []byte, err error)
+//@   nopanic
+//@   ensures [codec] err == nil && len(buf) != 0 ==> contents(out) == brDec(contents(buf))
+//@   ensures [empty] len(buf) == 0 ==> err == nil && len(out) == 0
+
+// every valid block decodes, whatever its compression ratio (a block expands at most 255 times)
+//@ func doLZ4Decode(buf []byte) (out []byte, err error)
+//@   nopanic
+//@   ensures [valid-ok] validLZ4(contents(buf)) ==> err == nil
+//@   ensures [codec]    err == nil ==> contents(out) == lz4Dec(contents(buf))
+//@   loop 0: modifies nothing
+//@   loop 0: invariant [size] size >= 0 && size <= 510 * len(buf) && maxSize == 255 * len(buf)
+//@   loop 0: invariant [input] contents(buf) == old(contents(buf))
+
+//@ func doSnappyDecode(buf []byte) (out []byte, err error)
+//@   nopanic
+//@   ensures [codec] err == nil ==> contents(out) == snzDec(contents(buf))
+
+//@ func doZSTDDecode(buf []byte) (out []byte, err error)
+//@   nopanic
+//@   ensures [codec] err == nil ==> contents(out) == zstDec(contents(buf))
